@@ -365,9 +365,14 @@ func (p *pool) run(kind string, sc Scenario, tr *hx.Trace) {
 		rn = append(rn, r.Name)
 	}
 
-	rec.Coq = fmt.Sprintf("{| c_cfg := mkcfg %s %s %s %s; c_viapk := %s; c_spar := %s; c_payload := %d; c_sender := %d; c_rcpts := %s; c_packed := %s; c_unp := %s |}",
+	refs := "None"
+	if sc.Via == "packager" && !legacy && (sc.Style == "diddoc" || sc.Style == "pdoc") {
+		refs = p.coqRefs(sc.Style, auth, sender, rcpts)
+	}
+
+	rec.Coq = fmt.Sprintf("{| c_cfg := mkcfg %s %s %s %s; c_viapk := %s; c_spar := %s; c_payload := %d; c_sender := %d; c_rcpts := %s; c_refs := %s; c_packed := %s; c_unp := %s |}",
 		coqPacker(sc.Packer), kt, sc.Enc, coqStyle(mstyle), hx.CoqBool(sc.Via == "packager"), hx.CoqNList(p.partyKeys(sender.Owner)), pid, senderN,
-		hx.CoqNList(rn), hx.CoqBool(perr == nil), hx.CoqList(coqUnp))
+		hx.CoqNList(rn), refs, hx.CoqBool(perr == nil), hx.CoqList(coqUnp))
 	rec.Observed = obs
 
 	outs := []string{}
@@ -385,6 +390,87 @@ func (p *pool) run(kind string, sc Scenario, tr *hx.Trace) {
 	}
 
 	tr.Put(rec)
+}
+
+// --- key references as strings of atoms (coq/C01/KeyRef.v): '.' = 0, '#' = 1, every other token an atom >= 1000 ---
+
+var atomTab = map[string]int{}
+
+func atom(tok string) int {
+	if a, ok := atomTab[tok]; ok {
+		return a
+	}
+
+	atomTab[tok] = 1000 + len(atomTab)
+
+	return atomTab[tok]
+}
+
+func coqStr(s, sep string) string {
+	var l []int
+
+	for i, tok := range strings.Split(s, sep) {
+		if i > 0 && sep == "." {
+			l = append(l, 0)
+		}
+
+		l = append(l, atom(tok))
+	}
+
+	return hx.CoqNList(l)
+}
+
+func coqRef(ref string) string {
+	i := strings.Index(ref, "#")
+	return fmt.Sprintf("(mkref %s %s)", coqStr(ref[:i], "."), coqStr(ref[i+1:], "-"))
+}
+
+// coqRefs prints the DID documents involved (every keyAgreement entry, in document order), the sender's reference
+// and the recipients' references.
+func (p *pool) coqRefs(style string, auth bool, sender *env.Key, rcpts []*env.Key) string {
+	var docs []string
+
+	seen := map[string]bool{}
+	add := func(k *env.Key) {
+		if style == "diddoc" {
+			if !seen[k.KeyDID()] {
+				seen[k.KeyDID()] = true
+				docs = append(docs, fmt.Sprintf("mkdoc %s [mkvm false %s %d]", coqStr(k.KeyDID(), "."), coqStr("key-1", "-"), k.Name))
+			}
+
+			return
+		}
+
+		did := env.PartyDID(k.Owner)
+		if seen[did] {
+			return
+		}
+
+		seen[did] = true
+
+		var vms []string
+		for _, x := range p.w.PartyKeys(k.Owner) {
+			vms = append(vms, fmt.Sprintf("mkvm %s %s %d", hx.CoqBool(k.Owner%2 == 1), coqStr(x.Fragment(), "-"), x.Name))
+		}
+
+		docs = append(docs, fmt.Sprintf("mkdoc %s %s", coqStr(did, "."), hx.CoqList(vms)))
+	}
+
+	sref := "(mkref [] [])"
+
+	if auth {
+		add(sender)
+		sref = coqRef(sender.Ref(style))
+	}
+
+	var rr []string
+
+	for _, k := range rcpts {
+		add(k)
+		rr = append(rr, coqRef(k.Ref(style)))
+	}
+
+	return fmt.Sprintf("(Some (%s, %s, %s))", hx.CoqList(docs), sref, hx.CoqList(rr))
 }
 
 // --- generators ---
@@ -548,7 +634,7 @@ func main() {
 	}
 
 	// random
-	nRandom := 5200
+	nRandom := 3600
 	if thorough {
 		nRandom = 24000
 	}
